@@ -252,7 +252,7 @@ func BareRepeater(n *Node) bool {
 				continue
 			}
 			if only != nil {
-				return false
+				return coalesces(n)
 			}
 			only = k
 		}
@@ -264,7 +264,65 @@ func BareRepeater(n *Node) bool {
 			return BareRepeater(n.Kids[0])
 		}
 	}
-	return false
+	return coalesces(n)
+}
+
+// coalesces: a sequence of repetitions of one and the same single-character atom (a{1,3}a, a*aa, [ab]+[ab])
+// with at least one quantifier among them is merged by the engine into a single repeater, so as the body of
+// an outer quantifier it is "reducible to a bare quantified item".
+func coalesces(n *Node) bool {
+	if n.K != KSeq {
+		return false
+	}
+	key, quants, parts := "", 0, 0
+	for _, k := range n.Kids {
+		if k.K == KEmpty || k.K == KComment || (k.K == KOpt && len(k.Kids) == 0) || (k.K == KLit && len(k.R) == 0) {
+			continue
+		}
+		for (k.K == KGroup && (k.G == GNon || k.G == GAtomic)) || (k.K == KOpt && len(k.Kids) > 0) {
+			k = k.Kids[0]
+		}
+		if k.K == KQuant {
+			quants++
+			k = k.Kids[0]
+			for (k.K == KGroup && (k.G == GNon || k.G == GAtomic)) || (k.K == KOpt && len(k.Kids) > 0) {
+				k = k.Kids[0]
+			}
+		}
+		ak, ok := atomKey(k)
+		if !ok || (key != "" && ak != key) {
+			return false
+		}
+		key = ak
+		parts++
+	}
+	return parts >= 2 && quants >= 1
+}
+
+func atomKey(n *Node) (string, bool) {
+	switch n.K {
+	case KLit:
+		if len(n.R) == 0 {
+			return "", false
+		}
+		for _, r := range n.R {
+			if r != n.R[0] {
+				return "", false
+			}
+		}
+		return fmt.Sprintf("lit:%d:%v", n.R[0], n.Eff.I), true
+	case KDot:
+		return fmt.Sprintf("dot:%v", n.Eff.S), true
+	case KShort:
+		return "short:" + n.S, true
+	case KProp:
+		return fmt.Sprintf("prop:%s:%v", n.S, n.Neg), true
+	case KClass:
+		if n.C != nil {
+			return "class:" + n.C.Print(false), true
+		}
+	}
+	return "", false
 }
 
 // ---------- annotation: effective options and capture numbers
@@ -488,6 +546,18 @@ func styledRune(r rune, style string, po PrintOpts) string {
 	return litRune(r, po)
 }
 
+// plainCondOK: the printed condition starts with a character that cannot begin a group name or number
+// and is not itself a group construct.
+func plainCondOK(test *Node, po PrintOpts) bool {
+	q := &printer{po: PrintOpts{ECMA: po.ECMA}}
+	q.node(test.Kids[0], false)
+	t := q.sb.String()
+	if t == "" {
+		return false
+	}
+	return t[0] == '[' || t[0] == '.' || (t[0] == '\\' && len(t) > 1 && strings.ContainsRune("dwsDWSpP", rune(t[1])))
+}
+
 type printer struct {
 	sb strings.Builder
 	po PrintOpts
@@ -635,6 +705,12 @@ func (p *printer) node(n *Node, inSeq bool) {
 	case KCond:
 		test := n.Kids[0]
 		switch {
+		case test != nil && n.S2 == "plain" && test.K == KGroup && test.G == GNon && plainCondOK(test, p.po):
+			// (?(expr)yes|no): the condition in plain parentheses (they do not capture); only used when the
+			// expression cannot be read as a group name or number
+			sb.WriteString("(?(")
+			p.node(test.Kids[0], false)
+			sb.WriteByte(')')
 		case test != nil:
 			sb.WriteString("(?")
 			p.node(test, false) // an explicit lookaround group, or a parenthesised bare expression
